@@ -284,7 +284,7 @@ theorem mo_round {m0 : Mem} {bk bl0 fa cell bu bua be bea : Nat} {us es : List E
     destination's group list has got their groups in order of first use; the rest of the caller's memory is unchanged -/
 theorem C_merge_existing_groups (m : Mem) (bk bl0 fa cell bu bua be bea : Nat) (us es : List Econf.Entry) (gl0 : List (Nat × List UInt8)) (cap start : Nat)
     (C : MeCtx m bk bl0 fa cell bu bua be bea us es gl0.length cap start)
-    (hG : GlMem m bk bl0 gl0) (hkw : ∀ blk, m[bk]? = some blk → blk.writable = true) (hne : bk ≠ bl0) (hd : ∀ x, x ∈ gl0 → x.1 ≠ bk ∧ x.1 ≠ bl0)
+    (hG : GlMem m bk bl0 gl0) (hkw : ∀ blk, m[bk]? = some blk → blk.writable = true) (hne : gl0 ≠ [] → bk ≠ bl0) (hd : ∀ x, x ∈ gl0 → x.1 ≠ bk ∧ x.1 ≠ bl0)
     (ablk0 : Block) (ha1 : m[fa]? = some ablk0) (ha2 : ablk0.live = true) (ha3 : ablk0.writable = true) (ha4 : ablk0.cells = []) (ha5 : ablk0.slots.length = 7 * cap)
     (fuel : Nat) (hf : gl0.length + (Econf.mergeExisting us es).length + es.length + us.length + 2 < fuel) :
     ∃ m' loc' bl' gl', exec fuel LeafFns.merge_existing_groups.body
@@ -296,7 +296,7 @@ theorem C_merge_existing_groups (m : Mem) (bk bl0 fa cell bu bua be bea : Nat) (
         ∀ k, k < 7 * start → ablk'.slots[k]? = ablk0.slots[k]?) ∧
       (∀ j (h : j < (Econf.mergeExisting us es).length), EntMem m' fa (7 * (start + j)) ((Econf.mergeExisting us es)[j]) [bk, bl']) ∧
       (∀ b, b < m.length → b ∉ [bk, bl0, fa] → m'[b]? = m[b]?) ∧ m.length ≤ m'.length ∧
-      (bl' = bl0 ∨ m.length ≤ bl') ∧ (∀ blk, m'[bk]? = some blk → blk.writable = true) ∧ bk ≠ bl' ∧ (∀ x, x ∈ gl' → x.1 ≠ bk ∧ x.1 ≠ bl') ∧
+      (bl' = bl0 ∨ m.length ≤ bl') ∧ (∀ kb blk, m[bk]? = some kb → m'[bk]? = some blk → KfKeep kb blk) ∧ (gl' ≠ [] → bk ≠ bl') ∧ (∀ x, x ∈ gl' → x.1 ≠ bk ∧ x.1 ≠ bl') ∧
       gl'.length ≤ gl0.length + (Econf.mergeExisting us es).length := by
   have hss := C.ssmall
   have wS : wrapTo .u64 (start : Int) = (start : Int) := wrapTo_u64_small _ (by omega) (by omega)
@@ -320,7 +320,7 @@ theorem C_merge_existing_groups (m : Mem) (bk bl0 fa cell bu bua be bea : Nat) (
       { mem := m, loc := moLoc bk cell bu be start start 0 .undef .undef .undef .undef .undef .undef .undef .undef } := by
     refine ⟨⟨.undef, .undef, .undef, .undef, .undef, .undef, .undef, .undef, by rw [hsel0]; simp⟩, ?_⟩
     rw [hsel0]
-    exact ⟨fun b _ _ => rfl, Nat.le_refl _, ⟨bl0, gl0, hG, Or.inl rfl, hkw, hne, hd, by simp, by simp, by simp⟩, ⟨ablk0, ha1, ha2, ha3, ha4, ha5, fun k _ => rfl⟩⟩
+    exact ⟨fun b _ _ => rfl, Nat.le_refl _, ⟨bl0, gl0, hG, Or.inl rfl, KfKeep.same hkw rfl, hne, hd, by simp, by simp, by simp⟩, ⟨ablk0, ha1, ha2, ha3, ha4, ha5, fun k _ => rfl⟩⟩
   obtain ⟨R, hloop, ⟨v7, v8, v9, v10, v11, v12, v13, v14, hlocR⟩, hAR⟩ := loop_inv _ _ _
     (fun st => MoInv m bk bl0 fa cell bu be us es (gl0.map (·.2)) gl0.length cap start ablk0 us.length st) us.length
     (fun i st => MoInv m bk bl0 fa cell bu be us es (gl0.map (·.2)) gl0.length cap start ablk0 i st)
@@ -423,7 +423,7 @@ theorem C_merge3 (m : Mem) (bk bl0 fa cell bu bua be bea : Nat) (us es : List Ec
     (hUs : SrcMem m bu bua us [bk, bl0, fa]) (hEs : SrcMem m be bea es [bk, bl0, fa])
     (cblk : Block) (hc1 : m[cell]? = some cblk) (hc2 : cblk.live = true) (hc3 : cblk.slots[0]? = some (.ptr fa 0)) (hc4 : cblk.writable = true) (hc5 : cblk.cells = [])
     (hcav : cell ∉ [bk, bl0, fa]) (hfane : fa ≠ bk ∧ fa ≠ bl0)
-    (hG : GlMem m bk bl0 gl0) (hkw : ∀ blk, m[bk]? = some blk → blk.writable = true) (hne : bk ≠ bl0) (hd : ∀ x, x ∈ gl0 → x.1 ≠ bk ∧ x.1 ≠ bl0)
+    (hG : GlMem m bk bl0 gl0) (hkw : ∀ blk, m[bk]? = some blk → blk.writable = true) (hne : gl0 ≠ [] → bk ≠ bl0) (hd : ∀ x, x ∈ gl0 → x.1 ≠ bk ∧ x.1 ≠ bl0)
     (ablk0 : Block) (ha1 : m[fa]? = some ablk0) (ha2 : ablk0.live = true) (ha3 : ablk0.writable = true) (ha4 : ablk0.cells = []) (ha5 : ablk0.slots.length = 7 * cap)
     (hcap : (Econf.mergeEntries us es).length ≤ cap) (hcap2 : es.length ≤ cap)
     (hsmall : (gl0.length : Int) + (Econf.mergeEntries us es).length + es.length + 2 < 2147483648)
@@ -445,13 +445,14 @@ theorem C_merge3 (m : Mem) (bk bl0 fa cell bu bua be bea : Nat) (us es : List Ec
       gl'.map (·.2) = ((Econf.mergeEntries us es).map (·.group)).foldl Econf.addGroup (gl0.map (·.2)) ∧
       (∃ cblk', m3[cell]? = some cblk' ∧ cblk'.live = true ∧ cblk'.slots[0]? = some (.ptr fa' 0)) ∧
       (∀ j (h : j < (Econf.mergeEntries us es).length), EntMem m3 fa' (7 * j) ((Econf.mergeEntries us es)[j]) [bk, bl']) ∧
-      (∀ b, b < m.length → b ∉ [bk, bl0, fa, cell] → m3[b]? = m[b]?) := by
+      (∀ b, b < m.length → b ∉ [bk, bl0, fa, cell] → m3[b]? = m[b]?) ∧
+      (∀ kb blk, m[bk]? = some kb → m3[bk]? = some blk → KfKeep kb blk) ∧
+      (gl' ≠ [] → bk ≠ bl') ∧ (∀ x, x ∈ gl' → x.1 ≠ bk ∧ x.1 ≠ bl') ∧
+      (∀ b, b < m.length → b ∉ [bk, bl0, fa] → m1[b]? = m[b]?) ∧ (∀ b, b < m.length → b ∉ [bk, bl0, fa] → m2[b]? = m[b]?) := by
   have hfalt : fa < m.length := (List.getElem?_eq_some_iff.1 ha1).1
   have hclt : cell < m.length := (List.getElem?_eq_some_iff.1 hc1).1
-  obtain ⟨kb0, kq1, _⟩ := hG.kf
-  obtain ⟨gb0, gq1, _⟩ := hG.arr
-  have hbklt : bk < m.length := (List.getElem?_eq_some_iff.1 kq1).1
-  have hbllt : bl0 < m.length := (List.getElem?_eq_some_iff.1 gq1).1
+  have hbklt : bk < m.length := hG.bk_lt
+  have hbllt : bl0 < m.length := hG.bl_lt
   have hcav' := hcav
   simp only [List.mem_cons, List.not_mem_nil, or_false, not_or] at hcav'
   have hE123 : (Econf.mergeEntries us es).length = (Econf.insertNoGroup us es).length + (Econf.mergeExisting us es).length + (Econf.addNewGroups us es).length := by
@@ -463,7 +464,9 @@ theorem C_merge3 (m : Mem) (bk bl0 fa cell bu bua be bea : Nat) (us es : List Ec
     insert_nogroup_exec m bk bl0 fa cell bu bua be bea us es gl0 cap hUs.toKf husmall
       ⟨hEs, ⟨cblk, hc1, hc2, hc3⟩, hcav, hfalt, hbklt, hbllt, hfane, hcap2, by omega, hlines⟩ hG hkw hne hd ablk0 ha1 ha2 ha3 ha4 ha5 fuel (by omega)
   have hgrow1 : m.length ≤ m1.length := hlen1
-  have hbl1lt : bl1 < m1.length := by obtain ⟨g, g1, _⟩ := hG1.arr; exact (List.getElem?_eq_some_iff.1 g1).1
+  obtain ⟨kb0, hkb0, _⟩ := hG.obj
+  obtain ⟨kb1, hkb1, _⟩ := hG1.obj
+  have hbl1lt : bl1 < m1.length := hG1.bl_lt
   have hbl1ne : ∀ b, b < m.length → b ≠ bl0 → b ≠ bl1 := by
     intro b hb hne'
     rcases hbl1 with e | e
@@ -480,10 +483,11 @@ theorem C_merge3 (m : Mem) (bk bl0 fa cell bu bua be bea : Nat) (us es : List Ec
     ⟨⟨⟨cblk, hc1', hc2, hc3⟩, hav01 cell hclt hcav, by omega, by omega, hbl1lt, ⟨hfane.1, hbl1ne fa hfalt hfane.2⟩⟩,
       hEs.transfer hfr1 hav01, hUs.transfer hfr1 hav01, by omega, by omega, husmall, hesmall, by omega, hlines, hulines⟩
   obtain ⟨m2, loc2, bl2, gl2, hex2, hG2, hnm2, ⟨ablk2, c1, c2, c3, c4, c5, c6⟩, hE2, hfr2, hlen2, hbl2, hkw2, hne2, hd2, hgl2⟩ :=
-    C_merge_existing_groups m1 bk bl1 fa cell bu bua be bea us es gl1 cap (Econf.insertNoGroup us es).length hctx2 hG1 hkw1 hne1 hd1
+    C_merge_existing_groups m1 bk bl1 fa cell bu bua be bea us es gl1 cap (Econf.insertNoGroup us es).length hctx2 hG1 (fun blk hb => (hkw1 kb0 blk hkb0 hb).1) hne1 hd1
       ablk1 b1 b2 b3 b4 b5 fuel (by omega)
   have hgrow2 : m1.length ≤ m2.length := hlen2
-  have hbl2lt : bl2 < m2.length := by obtain ⟨g, g1, _⟩ := hG2.arr; exact (List.getElem?_eq_some_iff.1 g1).1
+  obtain ⟨kb2, hkb2, _⟩ := hG2.obj
+  have hbl2lt : bl2 < m2.length := hG2.bl_lt
   have hbl2ne : ∀ b, b < m1.length → b ≠ bl1 → b ≠ bl2 := by
     intro b hb hne'
     rcases hbl2 with e | e
@@ -503,9 +507,10 @@ theorem C_merge3 (m : Mem) (bk bl0 fa cell bu bua be bea : Nat) (us es : List Ec
   have hctx3 : AgCtx m2 bk bl2 fa cell bu bua be bea us es gl2.length cap ((Econf.insertNoGroup us es).length + (Econf.mergeExisting us es).length) :=
     ⟨hEs.transfer hfr02 hav02, hUs.transfer hfr02 hav02, ⟨cblk, hc2', hc2, hc3⟩, hav02 cell hclt hcav, by omega, by omega, hbl2lt,
       ⟨hfane.1, hbl2ne fa (by omega) (hbl1ne fa hfalt hfane.2)⟩, by omega, by omega, husmall, by omega, hcsmall, hlines⟩
-  obtain ⟨m3, loc3, bl3, gl3, fa', hex3, hG3, hnm3, hcell3, ⟨ablk3, e1, e2, e6⟩, hE3, hfr3, hlen3, hbl3, hfa3⟩ :=
+  obtain ⟨m3, loc3, bl3, gl3, fa', hex3, hG3, hnm3, hcell3, ⟨ablk3, e1, e2, e6⟩, hE3, hfr3, hlen3, hbl3, hfa3a, hfa3b, hkw3, hne3, hd3⟩ :=
     C_add_new_groups m2 bk bl2 fa cell bu bua be bea us es gl2 cap ((Econf.insertNoGroup us es).length + (Econf.mergeExisting us es).length) hctx3
-      (fun cb hcb => by rw [hc2'] at hcb; injection hcb with hcb; subst hcb; exact ⟨hc4, hc5⟩) hG2 hkw2 hne2 hd2 ablk2 c1 c2 c3 c4 c5 fuel (by omega)
+      (fun cb hcb => by rw [hc2'] at hcb; injection hcb with hcb; subst hcb; exact ⟨hc4, hc5⟩) hG2 (fun blk hb => (hkw2 kb1 blk hkb1 hb).1) hne2 hd2 ablk2 c1 c2 c3 c4 c5 fuel (by omega)
+  have hfa3 : fa' ≠ bk ∧ fa' ≠ bl3 := ⟨hfa3a, hfa3b⟩
   have hcellno2 : ∀ b, b ∈ [cell] → ∀ str, m2.cstr b 0 ≠ .ok str := by
     intro b hb str
     simp only [List.mem_singleton] at hb
@@ -513,7 +518,8 @@ theorem C_merge3 (m : Mem) (bk bl0 fa cell bu bua be bea : Nat) (us es : List Ec
     exact no_cstr hc2' hc5 str
   have hfr3' : ∀ b, b < m2.length → b ≠ bk → b ≠ bl2 → b ≠ fa → b ∉ [cell] → m3[b]? = m2[b]? := fun b hb h1 h2 h3 h4 =>
     hfr3 b hb (by simp only [List.mem_cons, List.not_mem_nil, or_false, not_or] at h4 ⊢; exact ⟨h1, h2, h3, h4⟩)
-  refine ⟨m1, m2, m3, loc1, loc2, loc3, bl3, gl3, fa', by rw [← hn1]; exact hex1, hex2, by rw [hE123]; exact hex3, hG3, ?_, hcell3, ?_, ?_⟩
+  refine ⟨m1, m2, m3, loc1, loc2, loc3, bl3, gl3, fa', by rw [← hn1]; exact hex1, hex2, by rw [hE123]; exact hex3, hG3, ?_, hcell3, ?_, ?_,
+    fun kb blk hk hb => ((hkw1 kb kb1 hk hkb1).trans (hkw2 kb1 kb2 hkb1 hkb2)).trans (hkw3 kb2 blk hkb2 hb), hne3, hd3, hfr1, hfr02⟩
   · -- the group list
     rw [hnm3, hnm2, hnm1, hn1, ← foldl_addGroup_none (gl0.map (·.2)) (Econf.insertNoGroup us es) (insertNoGroup_groups us es)]
     simp [Econf.mergeEntries, List.map_append, List.foldl_append]
@@ -565,13 +571,13 @@ theorem C_merge3 (m : Mem) (bk bl0 fa cell bu bua be bea : Nat) (us es : List Ec
 
 /-- … with an empty group list and the array `econf_mergeFiles` allocates (`etc->length + usr->length` entries, enough by the list-level bound
     `C03_bound`).  Array and group list are then the `entries` and `groups` of the model's `mergeFiles`.
-    (`GlMem m bk bl0 []` wants the group array allocated with its one terminating slot; the object `econf_mergeFiles` has just made has
-    `groups == NULL`, and the first `setGroupList` on it goes through `realloc(NULL, …)`: that one step is outside these theorems.) -/
+    (`GlMem m bk bl0 []` holds for an object with an allocated array of one terminating slot and, with `bl0 = bk`, for the object
+    `econf_mergeFiles` has just made, whose `groups` is `NULL`: see `C_merge3_fresh`.) -/
 theorem C_merge3_mergeFiles (m : Mem) (bk bl0 fa cell bu bua be bea : Nat) (us es : List Econf.Entry)
     (hUs : SrcMem m bu bua us [bk, bl0, fa]) (hEs : SrcMem m be bea es [bk, bl0, fa])
     (cblk : Block) (hc1 : m[cell]? = some cblk) (hc2 : cblk.live = true) (hc3 : cblk.slots[0]? = some (.ptr fa 0)) (hc4 : cblk.writable = true) (hc5 : cblk.cells = [])
     (hcav : cell ∉ [bk, bl0, fa]) (hfane : fa ≠ bk ∧ fa ≠ bl0)
-    (hG : GlMem m bk bl0 []) (hkw : ∀ blk, m[bk]? = some blk → blk.writable = true) (hne : bk ≠ bl0)
+    (hG : GlMem m bk bl0 []) (hkw : ∀ blk, m[bk]? = some blk → blk.writable = true)
     (ablk0 : Block) (ha1 : m[fa]? = some ablk0) (ha2 : ablk0.live = true) (ha3 : ablk0.writable = true) (ha4 : ablk0.cells = [])
     (ha5 : ablk0.slots.length = 7 * (es.length + us.length))
     (hsmall : (us.length : Int) + 2 * es.length + 2 < 2147483648)
@@ -587,14 +593,61 @@ theorem C_merge3_mergeFiles (m : Mem) (bk bl0 fa cell bu bua be bea : Nat) (us e
       GlMem m3 bk bl' gl' ∧ gl'.map (·.2) = Econf.groupsOf (Econf.mergeEntries us es) ∧
       (∃ cblk', m3[cell]? = some cblk' ∧ cblk'.live = true ∧ cblk'.slots[0]? = some (.ptr fa' 0)) ∧
       (∀ j (h : j < (Econf.mergeEntries us es).length), EntMem m3 fa' (7 * j) ((Econf.mergeEntries us es)[j]) [bk, bl']) ∧
-      (∀ b, b < m.length → b ∉ [bk, bl0, fa, cell] → m3[b]? = m[b]?) := by
+      (∀ b, b < m.length → b ∉ [bk, bl0, fa, cell] → m3[b]? = m[b]?) ∧
+      n1 = (Econf.insertNoGroup us es).length ∧ n2 = n1 + (Econf.mergeExisting us es).length ∧
+      (∀ kb blk, m[bk]? = some kb → m3[bk]? = some blk → KfKeep kb blk) ∧
+      (gl' ≠ [] → bk ≠ bl') ∧ (∀ x, x ∈ gl' → x.1 ≠ bk ∧ x.1 ≠ bl') ∧
+      (∀ b, b < m.length → b ∉ [bk, bl0, fa] → m1[b]? = m[b]?) ∧ (∀ b, b < m.length → b ∉ [bk, bl0, fa] → m2[b]? = m[b]?) := by
   have hb := Econf.C03_bound us es
-  obtain ⟨m1, m2, m3, loc1, loc2, loc3, bl', gl', fa', h1, h2, h3, hG3, hn, hc, hE, hfr⟩ :=
-    C_merge3 m bk bl0 fa cell bu bua be bea us es [] (es.length + us.length) hUs hEs cblk hc1 hc2 hc3 hc4 hc5 hcav hfane hG hkw hne (by simp)
+  obtain ⟨m1, m2, m3, loc1, loc2, loc3, bl', gl', fa', h1, h2, h3, hG3, hn, hc, hE, hfr, hkeep, hne3, hd3, hfr1, hfr2⟩ :=
+    C_merge3 m bk bl0 fa cell bu bua be bea us es [] (es.length + us.length) hUs hEs cblk hc1 hc2 hc3 hc4 hc5 hcav hfane hG hkw (fun h => absurd rfl h) (by simp)
       ablk0 ha1 ha2 ha3 ha4 ha5 (by omega) (by omega) (by simp; omega) (by omega) (by omega) (by omega) hlines hulines fuel (by simp; omega)
-  refine ⟨m1, m2, m3, loc1, loc2, loc3, bl', gl', fa', _, _, h1, h2, h3, hG3, ?_, hc, hE, hfr⟩
+  refine ⟨m1, m2, m3, loc1, loc2, loc3, bl', gl', fa', _, _, h1, h2, h3, hG3, ?_, hc, hE, hfr, rfl, rfl, hkeep, hne3, hd3, hfr1, hfr2⟩
   rw [hn]
   simp [Econf.groupsOf, List.foldl_map]
+
+/-- **The three calls on the object `econf_mergeFiles` has just made** (`calloc`: `groups == NULL`, `group_count == 0`): the first
+    `setGroupList` allocates the group array through `realloc(NULL, …)`.  No group array is among the hypotheses: the base and the override
+    live apart from the object `bk` and the new entry array `fa`, the cell `*fe` is neither of them; afterwards every block of the caller
+    other than `bk`, `fa` and the cell is unchanged. -/
+theorem C_merge3_fresh (m : Mem) (bk fa cell bu bua be bea : Nat) (us es : List Econf.Entry)
+    (hUs : SrcMem m bu bua us [bk, fa]) (hEs : SrcMem m be bea es [bk, fa])
+    (cblk : Block) (hc1 : m[cell]? = some cblk) (hc2 : cblk.live = true) (hc3 : cblk.slots[0]? = some (.ptr fa 0)) (hc4 : cblk.writable = true) (hc5 : cblk.cells = [])
+    (hcav : cell ∉ [bk, fa]) (hfane : fa ≠ bk)
+    (hG : GlNull m bk) (hkw : ∀ blk, m[bk]? = some blk → blk.writable = true)
+    (ablk0 : Block) (ha1 : m[fa]? = some ablk0) (ha2 : ablk0.live = true) (ha3 : ablk0.writable = true) (ha4 : ablk0.cells = [])
+    (ha5 : ablk0.slots.length = 7 * (es.length + us.length))
+    (hsmall : (us.length : Int) + 2 * es.length + 2 < 2147483648)
+    (hlines : ∀ e ∈ es, (e.line : Int) < 18446744073709551616) (hulines : ∀ e ∈ us, (e.line : Int) < 18446744073709551616)
+    (fuel : Nat) (hf : 2 * es.length + 2 * us.length + 4 < fuel) :
+    ∃ m1 m2 m3 loc1 loc2 loc3 bl' gl' fa' n1 n2,
+      exec fuel LeafFns.insert_nogroup.body { mem := m, loc := [.ptr bk 0, .ptr cell 0, .ptr bu 0, .ptr be 0, .undef, .undef, .undef, .undef, .undef] } =
+        .ret (.int (n1 : Int)) { mem := m1, loc := loc1 } ∧
+      exec fuel LeafFns.merge_existing_groups.body { mem := m1, loc := [.ptr bk 0, .ptr cell 0, .ptr bu 0, .ptr be 0, .int (n1 : Int)] ++ List.replicate 10 .undef } =
+        .ret (.int (n2 : Int)) { mem := m2, loc := loc2 } ∧
+      exec fuel LeafFns.add_new_groups.body { mem := m2, loc := [.ptr bk 0, .ptr cell 0, .ptr bu 0, .ptr be 0, .int (n2 : Int), .undef, .undef, .undef, .undef, .undef] } =
+        .ret (.int ((Econf.mergeEntries us es).length : Int)) { mem := m3, loc := loc3 } ∧
+      GlMem m3 bk bl' gl' ∧ gl'.map (·.2) = Econf.groupsOf (Econf.mergeEntries us es) ∧
+      (∃ cblk', m3[cell]? = some cblk' ∧ cblk'.live = true ∧ cblk'.slots[0]? = some (.ptr fa' 0)) ∧
+      (∀ j (h : j < (Econf.mergeEntries us es).length), EntMem m3 fa' (7 * j) ((Econf.mergeEntries us es)[j]) [bk, bl']) ∧
+      (∀ b, b < m.length → b ∉ [bk, fa, cell] → m3[b]? = m[b]?) ∧
+      n1 = (Econf.insertNoGroup us es).length ∧ n2 = n1 + (Econf.mergeExisting us es).length ∧
+      (∀ kb blk, m[bk]? = some kb → m3[bk]? = some blk → KfKeep kb blk) ∧
+      (gl' ≠ [] → bk ≠ bl') ∧ (∀ x, x ∈ gl' → x.1 ≠ bk ∧ x.1 ≠ bl') ∧
+      (∀ b, b < m.length → b ∉ [bk, fa] → m1[b]? = m[b]?) ∧ (∀ b, b < m.length → b ∉ [bk, fa] → m2[b]? = m[b]?) := by
+  have hav : ∀ b, b < m.length → b ∉ [bk, fa] → b ∉ [bk, bk, fa] := by
+    intro b _ h
+    simp only [List.mem_cons, List.not_mem_nil, or_false, not_or] at h ⊢
+    exact ⟨h.1, h.1, h.2⟩
+  have hcav' : cell ∉ [bk, bk, fa] := by
+    simp only [List.mem_cons, List.not_mem_nil, or_false, not_or] at hcav ⊢
+    exact ⟨hcav.1, hcav.1, hcav.2⟩
+  obtain ⟨m1, m2, m3, loc1, loc2, loc3, bl', gl', fa', n1, n2, h1, h2, h3, hG3, hn, hc, hE, hfr, hn1, hn2, hkeep, hne3, hd3, hfr1, hfr2⟩ :=
+    C_merge3_mergeFiles m bk bk fa cell bu bua be bea us es (hUs.transfer (fun _ _ _ => rfl) hav) (hEs.transfer (fun _ _ _ => rfl) hav)
+      cblk hc1 hc2 hc3 hc4 hc5 hcav' ⟨hfane, hfane⟩ hG.toGlMem hkw ablk0 ha1 ha2 ha3 ha4 ha5 hsmall hlines hulines fuel hf
+  refine ⟨m1, m2, m3, loc1, loc2, loc3, bl', gl', fa', n1, n2, h1, h2, h3, hG3, hn, hc, hE, fun b hb hav' => hfr b hb ?_, hn1, hn2, hkeep, hne3, hd3, fun b hb h => hfr1 b hb (hav b hb h), fun b hb h => hfr2 b hb (hav b hb h)⟩
+  simp only [List.mem_cons, List.not_mem_nil, or_false, not_or] at hav' ⊢
+  exact ⟨hav'.1, hav'.1, hav'.2.1, hav'.2.2⟩
 
 end LeafKf
 
@@ -632,5 +685,53 @@ theorem run_merge3 : ∃ m1 m2 m3 loc1 loc2 loc3 bl' gl' fa',
   refine ⟨m1, m2, m3, loc1, loc2, loc3, bl', gl', fa', h1, h2, h3, hG, ?_, hc, ?_⟩
   · rw [hn]; decide
   · simpa using hE 1 (by simp)
+
+/-! The same caller's memory with the destination as `calloc` leaves it – `groups == NULL`, no group array (block 1 is dead) – and the
+    entry array `econf_mergeFiles` allocates (`etc->length + usr->length` = 4 entries). -/
+
+def memN : Mem :=
+  { cells := [], slots := kfSlots .null 0 .null 0 } :: { cells := [], live := false } :: { cells := [], slots := [.ptr 3 0] } ::
+    { cells := [], slots := List.replicate 28 .undef } :: mem.drop 4
+
+theorem memN_other : ∀ b, b < mem.length → b ∉ [0, 1, 3] → memN[b]? = mem[b]? := by
+  intro b _ hav
+  match b with
+  | 0 => simp at hav
+  | 1 => simp at hav
+  | 2 => rfl
+  | 3 => simp at hav
+  | k + 4 => rfl
+
+theorem dest_null : GlNull memN 0 := ⟨_, rfl, rfl, rfl, rfl⟩
+
+/-- every hypothesis of `C_merge3_fresh` is met by it, and the three calls (the first `setGroupList` goes through `realloc(NULL, …)`)
+    leave the model's three entries and their three groups -/
+theorem run_merge3_fresh : ∃ m1 m2 m3 loc1 loc2 loc3 bl' gl' fa',
+    exec 20 LeafFns.insert_nogroup.body { mem := memN, loc := [.ptr 0 0, .ptr 2 0, .ptr 4 0, .ptr 9 0, .undef, .undef, .undef, .undef, .undef] } =
+      .ret (.int 1) { mem := m1, loc := loc1 } ∧
+    exec 20 LeafFns.merge_existing_groups.body { mem := m1, loc := [.ptr 0 0, .ptr 2 0, .ptr 4 0, .ptr 9 0, .int 1] ++ List.replicate 10 .undef } =
+      .ret (.int 2) { mem := m2, loc := loc2 } ∧
+    exec 20 LeafFns.add_new_groups.body { mem := m2, loc := [.ptr 0 0, .ptr 2 0, .ptr 4 0, .ptr 9 0, .int 2, .undef, .undef, .undef, .undef, .undef] } =
+      .ret (.int 3) { mem := m3, loc := loc3 } ∧
+    GlMem m3 0 bl' gl' ∧ gl'.map (·.2) = [Econf.NONE, [65], [66]] ∧
+    (∃ cblk', m3[2]? = some cblk' ∧ cblk'.live = true ∧ cblk'.slots[0]? = some (.ptr fa' 0)) ∧
+    EntMem m3 fa' 7 { group := [65], key := [107], value := some [49], cb := none, ca := none, line := 1, quotes := false } [0, bl'] := by
+  have hav : ∀ b, b < mem.length → b ∉ [0, 1, 3] → b ∉ [0, 3] := by
+    intro b _ h
+    simp only [List.mem_cons, List.not_mem_nil, or_false, not_or] at h ⊢
+    exact ⟨h.1, h.2.2⟩
+  obtain ⟨m1, m2, m3, loc1, loc2, loc3, bl', gl', fa', n1, n2, h1, h2, h3, hG, hn, hc, hE, _, hn1, hn2, _⟩ :=
+    C_merge3_fresh memN 0 3 2 4 5 9 10 us es (base_full.transfer memN_other hav) (override_ok.transfer memN_other hav)
+      _ rfl rfl rfl rfl rfl (by decide) (by decide) dest_null (fun blk hb => by cases hb; rfl) _ rfl rfl rfl rfl rfl (by decide)
+      (fun e he => by simp [es] at he; rcases he with rfl | rfl | rfl <;> decide)
+      (fun e he => by simp [us] at he; subst he; decide) 20 (by decide)
+  have hi : (Econf.insertNoGroup us es).length = 1 := by decide
+  have hm : (Econf.mergeExisting us es).length = 1 := by decide
+  rw [hi] at hn1; subst hn1
+  rw [hm] at hn2; subst hn2
+  rw [model_merge] at h3 hE
+  have hg : Econf.groupsOf (Econf.mergeEntries us es) = [Econf.NONE, [65], [66]] := by rw [model_merge]; decide
+  rw [hg] at hn
+  exact ⟨m1, m2, m3, loc1, loc2, loc3, bl', gl', fa', h1, h2, h3, hG, hn, hc, by simpa using hE 1 (by simp)⟩
 
 end LeafKf.Example
